@@ -2,6 +2,9 @@ package props
 
 import (
 	"fmt"
+	"time"
+
+	"github.com/go-openapi/spec"
 
 	"github.com/go-openapi/strfmt"
 	"github.com/go-openapi/validate"
@@ -27,6 +30,9 @@ func init() {
 func (p *c08) Init(w *lib.Worker) error { return nil }
 
 func (p *c08) Run(w *lib.Worker, idx int, r *lib.Rand) lib.Case {
+	if idx%12 == 5 {
+		return p.typed(idx, r)
+	}
 	if idx%4 == 3 {
 		return p.simple(idx, r)
 	}
@@ -184,5 +190,128 @@ func (p *c08) simple(idx int, r *lib.Rand) lib.Case {
 	c.Hash = lib.Hash64(h)
 	c.Nontrivial = sawValid && sawInvalid && repeated
 	c.Tags = []string{"simple-validator", boolTag("header", isHeader)}
+	return c
+}
+
+// c08TypedValues are Go values as a program binds them (not decoded from JSON): several of them share a
+// reflect.Kind while the library infers different JSON types or formats for them, and the other way round.
+func c08TypedValues() []any {
+	three := 3
+	return []any{
+		int64(3), int32(3), uint8(3), 3.0, float32(3), "3", "abc", "2020-01-31", true,
+		strfmt.Duration(3 * time.Second), strfmt.Date(time.Date(2020, 1, 31, 0, 0, 0, 0, time.UTC)), strfmt.DateTime(time.Date(2020, 1, 31, 10, 0, 0, 0, time.UTC)),
+		strfmt.UUID("a8098c1a-f86e-11da-bd1a-00112444be1e"), strfmt.Email("a@b.co"), strfmt.URI("http://example.com/a"), strfmt.Hostname("example.com"),
+		strfmt.Base64("YWJj"), []byte("abc"), []interface{}{int64(1), int64(2)}, []int64{1, 2}, []string{"a", "b"}, []interface{}{"a", 1.5},
+		map[string]interface{}{"a": int64(1)}, struct{ A int }{1}, &three, time.Duration(3), [2]int{1, 2},
+	}
+}
+
+// typed drives long-lived schema, parameter and header validators with typed Go values.
+func (p *c08) typed(idx int, r *lib.Rand) lib.Case {
+	schemas := []string{
+		`{"type":"integer"}`, `{"type":"number","maximum":5}`, `{"type":"string"}`, `{"type":"string","format":"date"}`, `{"type":"string","format":"duration"}`,
+		`{"type":"string","format":"byte"}`, `{"type":"array","items":{"type":"integer"}}`, `{"type":"object"}`, `{"type":["integer","string"]}`, `{"enum":[3,"abc"]}`,
+		`{"type":"string","format":"uuid","minLength":3}`, `{"type":"boolean"}`, `{}`,
+	}
+	st := []byte(schemas[r.Intn(len(schemas))])
+	kind := []string{"schema", "param", "header"}[idx/12%3]
+	pool := c08TypedValues()
+	ncalls := r.Range(20, 60)
+	c := lib.Case{Evals: 2 * ncalls, Tags: []string{"typed-values", "validator:" + kind}}
+	var sv *validate.SchemaValidator
+	var pv *validate.ParamValidator
+	var hv *validate.HeaderValidator
+	mkParam := func() *spec.Parameter {
+		var sch spec.Schema
+		_ = sch.UnmarshalJSON(st)
+		prm := spec.QueryParam("p")
+		if len(sch.Type) > 0 {
+			prm.Type = sch.Type[0]
+		} else {
+			prm.Type = "string"
+		}
+		prm.Format = sch.Format
+		prm.Maximum, prm.MinLength, prm.Enum = sch.Maximum, sch.MinLength, sch.Enum
+		if prm.Type == "array" {
+			prm.Items = spec.NewItems().Typed("integer", "")
+		}
+		if prm.Type == "object" {
+			prm.Type = "string"
+		}
+		return prm
+	}
+	mkHeader := func() *spec.Header {
+		prm := mkParam()
+		h := spec.ResponseHeader()
+		h.Type, h.Format, h.Items = prm.Type, prm.Format, prm.Items
+		h.Maximum, h.MinLength, h.Enum = prm.Maximum, prm.MinLength, prm.Enum
+		return h
+	}
+	build := func() {
+		switch kind {
+		case "schema":
+			sch, _ := sut.Schema(st)
+			sv = validate.NewSchemaValidator(sch, nil, "root", strfmt.Default)
+		case "param":
+			pv = validate.NewParamValidator(mkParam(), strfmt.Default)
+		default:
+			hv = validate.NewHeaderValidator("X-H", mkHeader(), strfmt.Default)
+		}
+	}
+	if o := sut.Guard(func() sut.Outcome { build(); return sut.Outcome{Valid: true} }); o.Panic != "" {
+		c.Viol = &lib.Violation{What: "panic building a validator: " + o.Panic}
+		return c
+	}
+	long := func(v any) sut.Outcome {
+		return sut.Guard(func() sut.Outcome {
+			switch kind {
+			case "schema":
+				return sut.FromResult(sv.Validate(v))
+			case "param":
+				return sut.FromResult(pv.Validate(v))
+			default:
+				return sut.FromResult(hv.Validate(v))
+			}
+		})
+	}
+	fresh := func(v any) sut.Outcome {
+		return sut.Guard(func() sut.Outcome {
+			switch kind {
+			case "schema":
+				sch, _ := sut.Schema(st)
+				return sut.FromResult(validate.NewSchemaValidator(sch, nil, "root", strfmt.Default).Validate(v))
+			case "param":
+				return sut.FromResult(validate.NewParamValidator(mkParam(), strfmt.Default).Validate(v))
+			default:
+				return sut.FromResult(validate.NewHeaderValidator("X-H", mkHeader(), strfmt.Default).Validate(v))
+			}
+		})
+	}
+	h := append([]byte(kind), st...)
+	first := map[int]string{}
+	distinctKeys := map[string]bool{}
+	for n := 0; n < ncalls; n++ {
+		vi := r.Intn(len(pool))
+		v := pool[vi]
+		h = append(h, byte(vi))
+		fr := fresh(v)
+		if fr.Panic != "" {
+			continue // a value the validator cannot take at all is outside the claim; it must not disturb later calls either
+		}
+		got := long(v)
+		if got.Key() != fr.Key() {
+			c.Viol = &lib.Violation{What: fmt.Sprintf("call %d of a long-lived %s validator on a typed value differs from a freshly built one: %T(%v) schema=%s: long-lived %s, fresh %s", n, kind, v, v, st, got.Key(), fr.Key()),
+				Detail: map[string]any{"schema": string(st), "validator": kind, "call": n, "value": fmt.Sprintf("%T(%v)", v, v), "long_lived": got, "fresh": fr}}
+			return c
+		}
+		if prev, ok := first[vi]; ok && prev != got.Key() {
+			c.Viol = &lib.Violation{What: fmt.Sprintf("repeating a call returned something else: %T(%v) schema=%s", v, v, st)}
+			return c
+		}
+		first[vi] = got.Key()
+		distinctKeys[got.Key()] = true
+	}
+	c.Hash = lib.Hash64(h)
+	c.Nontrivial = len(distinctKeys) >= 2
 	return c
 }
